@@ -17,8 +17,10 @@ for f in doc["findings"]:
     try:
         p = subprocess.run(["git", "-C", "/repo", "apply", "-R", "--3way"], input=diff, capture_output=True, text=True)
         if p.returncode != 0:
-            print("SKIP  %s %s: cannot revert %s cleanly: %s" % (f["property"], f["key"], f["commit"], p.stderr.strip()[:200]))
-            continue
+            # fall back to the state of the touched files just before that commit (later fixes to them are lost too)
+            subprocess.run(["git", "-C", "/repo", "reset", "-q", "--hard", "HEAD"])
+            files = subprocess.run(["git", "-C", "/repo", "diff", "--name-only", f["commit"] + "^", f["commit"]], capture_output=True, text=True).stdout.split()
+            subprocess.run(["git", "-C", "/repo", "checkout", f["commit"] + "^", "--"] + files, check=True)
         r = subprocess.run([os.path.join(root, "check"), f["property"], "--replay", os.path.join(root, f["replay"])], capture_output=True, text=True, cwd=root)
         okk = r.returncode == 1 and "VIOLATION" in r.stdout
         print("%s %s %s (without %s: exit %d)" % ("OK   " if okk else "WEAK ", f["property"], f["key"], f["commit"], r.returncode))
